@@ -1,5 +1,5 @@
 //! Registry: which families of cases make up each check at each tier, and replay dispatch.
-use crate::alphabet::{Chars, Soup, Words, CONTEXTS, GAPS3, GAPS5, SIGMA, SIGMA_SMALL};
+use crate::alphabet::{Chars, Skeletons, Soup, Words, CONTEXTS, GAPS3, GAPS5, SIGMA, SIGMA_SMALL};
 use crate::cfg::{self, Cfg, C_QUICK};
 use crate::grammar::Grammar;
 use crate::oracles as o;
@@ -146,6 +146,67 @@ impl NearMisses {
         }
         out
     }
+}
+
+impl TextSource for Skeletons {
+    fn name(&self) -> String {
+        format!("directive-skeletons(len<={})", self.n)
+    }
+    fn len(&self) -> u64 {
+        Skeletons::len(self)
+    }
+    fn get(&self, idx: u64, buf: &mut String) {
+        Skeletons::get(self, idx, buf)
+    }
+}
+
+/// scaling sweeps: one case per construct
+pub struct ScalingFamily {
+    pub sizes: Vec<usize>,
+    pub cfgs: Vec<Cfg>,
+}
+impl Family for ScalingFamily {
+    fn name(&self) -> String {
+        format!("c04scaling:constructs({})xsizes{:?}x{}cfg", crate::alphabet::SCALING_KINDS, self.sizes, self.cfgs.len())
+    }
+    fn len(&self) -> u64 {
+        (crate::alphabet::SCALING_KINDS * self.cfgs.len()) as u64
+    }
+    fn run(&self, idx: u64, ctx: &mut Ctx) {
+        let nc = self.cfgs.len() as u64;
+        o::c04_scaling((idx / nc) as usize, &self.cfgs[(idx % nc) as usize], &self.sizes, ctx);
+    }
+    fn describe(&self, idx: u64) -> Value {
+        let nc = self.cfgs.len() as u64;
+        json!({"construct": crate::alphabet::scaling_input((idx / nc) as usize, 3), "sizes": self.sizes, "cfg": self.cfgs[(idx % nc) as usize]})
+    }
+    fn horizon_ms(&self) -> u64 {
+        120_000
+    }
+}
+
+/// C04 with cursors: every single cursor (and pairs for tiny inputs) must not crash either
+fn or_c04_cursors() -> TextOracle {
+    Box::new(|x, c, ctx| {
+        use pasfmt_core::prelude::Cursor;
+        let cs = o3::cursor_set(x);
+        let mut all: Vec<Cursor> = cs.iter().map(|v| Cursor(*v)).collect();
+        let out = ctx.fmt_cursors(c, x, &mut all);
+        if out != x {
+            ctx.nontrivial();
+        }
+        for &a in &cs {
+            ctx.sub_eval();
+            let mut one = [Cursor(a)];
+            let _ = ctx.fmt_cursors(c, x, &mut one);
+            if x.len() <= 8 {
+                for &b in &cs {
+                    let mut two = [Cursor(a), Cursor(b)];
+                    let _ = ctx.fmt_cursors(c, x, &mut two);
+                }
+            }
+        }
+    })
 }
 
 pub struct Texts {
@@ -799,6 +860,9 @@ pub fn families(check: &str, tier: &str) -> Vec<Box<dyn Family>> {
                     tf("c04", lit_texts(2), &C_QUICK[..2], or_c04()),
                     tf("c04", Chars { n: 3 }, &one, or_c04()),
                     seed_mutations("c04", &all_seeds(), &C_QUICK[1..2], f_c04),
+                    tf("c04passes", Skeletons { n: 6 }, &one, Box::new(|x, c, ctx| o::c04_passes(x, c, ctx))),
+                    tf("c04cursors", soup(2, GAPS3, &["%", "begin % end"]), &one, or_c04_cursors()),
+                    Box::new(ScalingFamily { sizes: vec![1, 2, 4, 8, 16, 32, 64], cfgs: vec![cfg::DEFAULT, C_QUICK[1]] }),
                 ]
             } else {
                 vec![
@@ -807,6 +871,16 @@ pub fn families(check: &str, tier: &str) -> Vec<Box<dyn Family>> {
                     tf("c04", Soup { k: 4, sigma: SIGMA_SMALL, gaps: &[" ", "\n"], contexts: &["%", "begin % end", "type T = class % end;"] }, &C_QUICK[..2], or_c04()),
                     tf("c04", lit_texts(3), &C_QUICK, or_c04()),
                     seed_mutations("c04", &all_seeds(), &C_QUICK, f_c04),
+                    tf("c04passes", Skeletons { n: 8 }, &one, Box::new(|x, c, ctx| o::c04_passes(x, c, ctx))),
+                    tf("c04cursors", soup(2, GAPS5, CONTEXTS), &C_QUICK[..2], or_c04_cursors()),
+                    seed_texts("c04cursors", &all_seeds(), &C_QUICK[..2], |x, c, ctx| {
+                        use pasfmt_core::prelude::Cursor;
+                        for v in o3::cursor_set(x) {
+                            let mut one = [Cursor(v)];
+                            let _ = ctx.fmt_cursors(c, x, &mut one);
+                        }
+                    }),
+                    Box::new(ScalingFamily { sizes: vec![1, 2, 4, 8, 16, 32, 64, 128, 256], cfgs: C_QUICK[..3].to_vec() }),
                 ]
             }
         }
@@ -1048,6 +1122,7 @@ pub fn families(check: &str, tier: &str) -> Vec<Box<dyn Family>> {
                 vec![
                     tf("c14", soup(2, GAPS5, CONTEXTS), &one, or_c14(false)),
                     tf("c14", Chars { n: 3 }, &one, or_c14(false)),
+                    tf("c14", Skeletons { n: 6 }, &one, or_c14(false)),
                     prog_variants("c14wf", &g(2), 2, &one, vo_base, f_c14_wf),
                     prog_variants("c14wf", &g(1), 1, &one, vo_all, f_c14_wf),
                     seed_texts("c14wf", &wf_seeds(), &one, f_c14_wf),
@@ -1056,6 +1131,8 @@ pub fn families(check: &str, tier: &str) -> Vec<Box<dyn Family>> {
                 vec![
                     tf("c14", soup(3, GAPS3, CONTEXTS), &one, or_c14(false)),
                     tf("c14", Chars { n: 4 }, &one, or_c14(false)),
+                    tf("c14", Skeletons { n: 8 }, &one, or_c14(false)),
+                    tf("c14", Soup { k: 4, sigma: SIGMA_SMALL, gaps: &[" "], contexts: &["%"] }, &one, or_c14(false)),
                     prog_variants("c14wf", &g(3), 3, &one, vo_base, f_c14_wf),
                     prog_variants("c14wf", &g(2), 2, &one, vo_all, f_c14_wf),
                     seed_texts("c14wf", &wf_seeds(), &one, f_c14_wf),
@@ -1116,7 +1193,21 @@ pub fn replay(case: &Value, ctx: &mut Ctx) -> bool {
         }
         "c04" => {
             let _ = ctx.fmt(&c, &input);
+            use pasfmt_core::prelude::Cursor;
+            if input.len() <= 64 {
+                for v in o3::cursor_set(&input) {
+                    let mut one = [Cursor(v)];
+                    let _ = ctx.fmt_cursors(&c, &input, &mut one);
+                }
+            }
         }
+        "c04passes" => o::c04_passes(&input, &c, ctx),
+        "c04scaling" => o::c04_scaling(
+            case["kind"].as_u64().unwrap_or(0) as usize,
+            &c,
+            &[1, 2, 4, 8, case["n"].as_u64().unwrap_or(16) as usize],
+            ctx,
+        ),
         "c08" => {
             let out = ctx.fmt(&c, &input);
             let eof = case["eof_clause"].as_bool().unwrap_or(false);
